@@ -45,6 +45,10 @@ func PrintAfterRenames(x string, seed uint64) (y0, y string, stats map[string]in
 	// the result-type caches of half of the instructions are emptied as well (the type is computed again on demand)
 	if stats != nil {
 		stats["result-type caches emptied"] = apiedit.ClearResultTypes(seed, m)
+		// and identified struct types are renamed (one object for all uses)
+		if seed%3 != 0 {
+			stats["struct types renamed"] = apiedit.RenameTypes(seed, m)
+		}
 	}
 	y, pp = lx.Print(m)
 	if pp != nil {
